@@ -157,6 +157,7 @@ struct World {
 	double secs;
 	time_t t_unicast, t_bcast;
 	std::vector<std::string> logs;     // the library's err stream per party (kept even if the party crashes)
+	std::map<std::string, int> notes;  // counted, not alarmed: liveness failures and the like
 
 	World(const Cfg &c, const Group *g) : cfg(c), G(g), ps(c.n), livelock(false), vsecs(0), handoffs(0), msgs(0), secs(0),
 		t_unicast(aiounicast::aio_timeout_short), t_bcast(aiounicast::aio_timeout_long)
@@ -461,32 +462,41 @@ struct JView {
 struct JResult { bool have_x; Mpz x, xp; JResult() : have_x(false) {} };
 
 // the consistency oracle for joint sharings; `views` are the honest parties only
-inline JResult judge_joint(World &W, const std::string &tag, std::vector<JView> &views, int deg, bool expect_zero)
+inline JResult judge_joint(World &W, const std::string &tag, std::vector<JView> &all_views, int deg, bool expect_zero)
 {
 	JResult res;
 	const Group &G = *W.G;
-	if (views.empty()) return res;
+	// The property speaks about the state the honest parties END UP WITH: judged are the honest parties whose call
+	// succeeded.  No honest party succeeding is a (counted) liveness failure, not an inconsistency.
+	std::vector<JView> views;
+	for (size_t a = 0; a < all_views.size(); a++) if (all_views[a].ret) views.push_back(all_views[a]);
+	if (views.empty())
+	{
+		if (!all_views.empty()) W.notes[tag + ".all_honest_failed"]++;
+		return res;
+	}
 	bool structural_ok = true;
-	for (size_t a = 0; a < views.size(); a++)
-		if (!views[a].ret)
+	for (size_t a = 0; a < all_views.size(); a++)
+	{
+		if (all_views[a].ret) continue;
+		// an honest party that failed: consistent only if the successful ones agree that it is not qualified
+		bool in_some = false;
+		for (size_t b = 0; b < views.size(); b++)
+			if (std::find(views[b].qual.begin(), views[b].qual.end(), (size_t)all_views[a].party) != views[b].qual.end()) in_some = true;
+		if (in_some)
 		{
-			W.viol(tag + "/honest-failed", "honest party " + drv::str(views[a].party) + " ended the protocol with failure although at most t parties deviate (QUAL seen: " + set_str(views[a].qual) + ")");
+			W.viol(tag + "/honest-outcomes-differ", "honest party " + drv::str(all_views[a].party) + " ended with failure while honest party " + drv::str(views[0].party) + " succeeded with QUAL " + set_str(views[0].qual) + " that contains it");
 			structural_ok = false;
 		}
-	if (!structural_ok) return res;     // nothing was agreed on; the state of a failed run is not judged further
+		else
+			W.notes[tag + ".honest_disqualified"]++;
+	}
 	for (size_t a = 1; a < views.size(); a++)
 		if (views[a].qual != views[0].qual)
 		{
 			W.viol(tag + "/qual-disagree", "honest parties " + drv::str(views[0].party) + " and " + drv::str(views[a].party) + " hold different QUAL: " + set_str(views[0].qual) + " vs " + set_str(views[a].qual));
 			structural_ok = false;
 		}
-	for (size_t a = 0; a < views.size(); a++)
-		for (size_t b = 0; b < views.size(); b++)
-			if (std::find(views[a].qual.begin(), views[a].qual.end(), (size_t)views[b].party) == views[a].qual.end())
-			{
-				W.viol(tag + "/honest-disqualified", "honest party " + drv::str(views[b].party) + " is not in QUAL " + set_str(views[a].qual) + " of honest party " + drv::str(views[a].party));
-				structural_ok = false;
-			}
 	// public verification values agree
 	for (size_t a = 1; a < views.size(); a++)
 		for (size_t qi = 0; qi < views[a].qual.size(); qi++)
